@@ -96,7 +96,13 @@ func ReadHeaders(resp *protocol.Response, r network.Reader) error {
 	if err != nil {
 		return err
 	}
-	if resp.Header.StatusCode() == consts.StatusContinue {
+	// An interim response (100 Continue, 102 Processing, 103 Early Hints) is followed by further
+	// interim responses or by the final one (RFC 9110 15.2): read on until the final response.
+	// 101 ends HTTP on the connection and is handed to the caller.
+	for n := 0; isInterim(resp.Header.StatusCode()); n++ {
+		if n == maxInterimResponses {
+			return errTooManyInterimResponses
+		}
 		// Read the next response according to http://www.w3.org/Protocols/rfc2616/rfc2616-sec8.html .
 		if err = ReadHeader(&resp.Header, r); err != nil {
 			return err
@@ -104,6 +110,19 @@ func ReadHeaders(resp *protocol.Response, r network.Reader) error {
 	}
 	return nil
 }
+
+// maxInterimResponses bounds how many 1xx responses are skipped in front of one final response.
+const maxInterimResponses = 8
+
+var errTooManyInterimResponses = errs.NewPublic("too many 1xx interim responses")
+
+// isInterim reports the registered interim status codes. (Every 1xx code except 101 is interim by RFC 9110;
+// unregistered ones are left to the caller as before.)
+func isInterim(statusCode int) bool {
+	return statusCode == consts.StatusContinue || statusCode == consts.StatusProcessing || statusCode == statusEarlyHints
+}
+
+const statusEarlyHints = 103 // RFC 8297
 
 // ReadHeaderAndLimitBody ...
 func ReadHeaderAndLimitBody(resp *protocol.Response, r network.Reader, maxBodySize int) error {
